@@ -107,8 +107,9 @@ void ProgressHandler::finish()
         // Speed up the thread's exit condition by releasing the timex mutex
         timed_mut.unlock();
 
-        // Then wait for the thread to finish
-        future.wait();
+        // Then wait for the thread to finish (get() also invalidates the
+        // future, so that finishing again does not unlock the mutex twice)
+        future.get();
     }
 }
 
